@@ -14,6 +14,7 @@
     E <mtimeNs> <text>        the file now holds <text>, modification time <mtimeNs>
     D                         the file is removed
     R                         one reload (full-version comparison: mtime in ns + size)
+    RR <mtimeNs> <text>       one reload during which the file becomes <text> right after it was read
     RS                        one reload with the whole-second comparison of the unchanged code
        → (nofile | reset | same | loaded | parseerr | expansion) <notified so far>
     G v <key>                 GetValue            → <str>
@@ -30,6 +31,8 @@
     OX <name> <id> <d>        a callback registered (name, id) during the last round; it got d ∈ {0,1} calls in it
   Stateless ops:
     F <pairs>                 canonical full rendering of the pairs (renderFileFull) → <text>
+    WP <checked> <create> <writeFailsAfter|-> <sync> <close> <rename> <old> <new>
+                              store part of Write with failing calls → content=old|new|other err=… temp=…
     CD <trunc|atomic|nosync> <old> <new>  contents the configuration path can hold after a power loss → list
     P <text>                  parse + Read        → ok <pairs> | malformed | expansion
     W <fixC> <text> <pairs>   DefaultFileParser.Write → ok <body lines> <appended lines> | malformed
@@ -42,6 +45,8 @@ import Golib.Conf.FS
 import Golib.Conf.ObsHist
 import Golib.Conf.FSDur
 import Golib.Conf.FullGrammar
+import Golib.Conf.FSFault
+import Golib.Conf.Tracks
 import Driver.Common
 
 open Conf Drv
@@ -143,6 +148,13 @@ def answer (st : DrvSt) (line : String) : DrvSt × String :=
   | ["F", pairs] => match decPairs pairs with
     | some pairs => (st, encStr (renderFileFull pairs))
     | none => (st, "bad-op")
+  | ["WP", chk, cr, wa, sy, cl, rn, old, new] => match decStr old, decStr new with
+    | some old, some new =>
+      let ft : Faults := ⟨cr == "1", if wa == "-" then none else parseNat wa, sy == "1", cl == "1", rn == "1"⟩
+      let r := storeProtocol (chk == "1") ft old new
+      let tgt := match r.1.target with | some c => (if c == old then "old" else if c == new then "new" else "other") | none => "missing"
+      (st, s!"content={tgt} err={r.2} temp={r.1.temp.isSome}")
+    | _, _ => (st, "bad-op")
   | ["CD", which, old, new] => match decStr old, decStr new with
     | some old, some new =>
       let seq := if which == "trunc" then truncSeq else if which == "nosync" then noSyncSeq else atomicSeq
@@ -161,6 +173,13 @@ def answer (st : DrvSt) (line : String) : DrvSt × String :=
   | ["R"] =>
     let (c, r) := reload verFull st.cfg st.file
     ({ st with cfg := c, obs := if r == .loaded then st.obs.run else st.obs }, showRes c r)
+  | ["RR", t, text] => match parseInt t, decStr text, st.file with
+    | some t, some text, some f1 =>
+      -- a reload during which the file changes from its present state to ⟨t, text⟩ right after the read
+      let r := reload verFull st.cfg (some f1)
+      let c := reloadRacing false st.cfg f1 ⟨t, text⟩
+      ({ st with cfg := c, file := some ⟨t, text⟩, obs := if r.2 == .loaded then st.obs.run else st.obs }, showRes c r.2)
+    | _, _, _ => (st, "bad-op")
   | ["RS"] =>
     let (c, r) := reload verSec st.cfg st.file
     ({ st with cfg := c, obs := if r == .loaded then st.obs.run else st.obs }, showRes c r)
